@@ -6,6 +6,7 @@ import (
 	"image"
 	"image/color"
 	"io"
+	"runtime"
 	"strings"
 
 	webp "github.com/deepteams/webp"
@@ -230,7 +231,7 @@ func expectedNRGBA(img image.Image) *image.NRGBA {
 
 // suiteRoundtrip: C01 end to end — webp.Encode(Lossless) then webp.Decode reproduces every pixel.
 func suiteRoundtrip(rep *Report) error {
-	rep.Rule = "image class x alpha class x size (1x1, 1xN, Nx1, around 2^k +-1, ragged) x Go image type {NRGBA,RGBA,Gray,Paletted,NRGBA64,generic,subimage,RGBA64} x Quality {0,10,24,25,49,50,74,75,89,90,100} x Method 0..6 x Exact x metadata, plus a sweep of one non-opaque pixel at raster index 0 / 1 / each of the last 8 positions (sizes with pixel count mod 4 = 0..3) and two-colour pictures with controlled runs of unused symbols (2/3, 10/11, 138/139/140, 130..145) in the code-length vector; decoded pixels compared with NRGBAModel.Convert(src.At) (alpha-0 pixels may be transparent black unless Exact); non-trivial = image has >= 2 distinct pixels; distinct = hash of (pixels, options)"
+	rep.Rule = "image class x alpha class x size (1x1, 1xN, Nx1, around 2^k +-1, ragged; every 97th case >= 100000 pixels with prime/odd height - 256x401, 317x331, 400x251, 1000x101, 101x1000, 7x14293 ... - decoded under the ambient GOMAXPROCS and under two of {2,3,5,7} (thorough: all four); plus a leg of sizes just below/on/above the numeric thresholds of the code - thresholds.go - with flat/gradient/sparse content) x Go image type {NRGBA,RGBA,Gray,Paletted,NRGBA64,generic,subimage,RGBA64} x Quality {0,10,24,25,49,50,74,75,89,90,100} x Method 0..6 x Exact x metadata, plus a sweep of one non-opaque pixel at raster index 0 / 1 / each of the last 8 positions (sizes with pixel count mod 4 = 0..3) and two-colour pictures with controlled runs of unused symbols (2/3, 10/11, 138/139/140, 130..145) in the code-length vector; decoded pixels compared with NRGBAModel.Convert(src.At) (alpha-0 pixels may be transparent black unless Exact); non-trivial = image has >= 2 distinct pixels; distinct = hash of (pixels, options)"
 	n := 700
 	if rep.Tier == "thorough" {
 		n = 20000
@@ -246,11 +247,27 @@ func suiteRoundtrip(rep *Report) error {
 	if rep.Tier == "thorough" {
 		nZero = 3000
 	}
-	for i := 0; i < n+nSparse+nZero; i++ {
+	// pictures above the decoder's 100000-pixel parallel threshold (inverse transforms and the
+	// ARGB->NRGBA conversion are then split by rows over GOMAXPROCS workers): prime / odd heights, so
+	// that height % workers != 0 for every worker count, next to the old 320x320
+	bigSizes := [][2]int{{256, 401}, {317, 331}, {400, 251}, {320, 320}, {1000, 101}, {101, 1000}, {333, 307}, {7, 14293}}
+	// threshold leg: sizes just below / on / just above the numeric thresholds of the code (thresholds.go),
+	// cheap content
+	nThrDraw := 14
+	if rep.Tier == "thorough" {
+		nThrDraw = 1 << 20 // all
+	}
+	thr := DrawThresholdCases(rep.Seed, 0x01, nThrDraw, ThresholdFilter{MaxPixels: 140000, MinValue: 200})
+	nThr := len(thr)
+	defer runtime.GOMAXPROCS(runtime.GOMAXPROCS(0))
+	ambient := runtime.GOMAXPROCS(0)
+	nBigSeen := 0
+	for i := 0; i < n+nSparse+nZero+nThr; i++ {
 		r := NewRNG(rep.Seed, uint64(i))
 		sz := sizes[r.Intn(len(sizes))]
-		if i%97 == 0 {
-			sz = [2]int{320, 320}
+		if i%97 == 0 && i < n {
+			sz = bigSizes[(nBigSeen+int(rep.Seed))%len(bigSizes)]
+			nBigSeen++
 			if rep.Tier == "thorough" && i%970 == 0 {
 				sz = [2]int{1 + r.Intn(2100), 1 + r.Intn(40)}
 			}
@@ -259,6 +276,15 @@ func suiteRoundtrip(rep *Report) error {
 		var base *image.NRGBA
 		idesc := ""
 		switch {
+		case i >= n+nSparse+nZero:
+			tc := thr[i-(n+nSparse+nZero)]
+			sz = [2]int{tc.W, tc.H}
+			kind := r.Intn(NumCheapClasses)
+			acls = []int{AlphaNone, AlphaNone, AlphaGradient, AlphaSparse, AlphaBinary}[r.Intn(5)]
+			cls = ClsFlat
+			base = GenCheapImage(r, tc.W, tc.H, kind, acls)
+			idesc = cheapDesc(tc.W, tc.H, kind, acls) + " " + tc.String()
+			CountThreshold(rep, tc)
 		case i < n:
 			base = GenImage(r, sz[0], sz[1], cls, acls)
 			idesc = imgDesc(sz[0], sz[1], cls, acls)
@@ -321,6 +347,30 @@ func suiteRoundtrip(rep *Report) error {
 			rep.Add(Finding{Kind: "property", Property: "C01", Signature: "roundtrip:pixels:" + tname + fmt.Sprintf(":exact=%v", o.Exact),
 				Detail: desc + ": " + why, Input: map[string]any{"op": "roundtrip", "case": i, "seed": rep.Seed, "desc": desc, "hex": short(hx(file), 4000)}})
 		}
+		if sz[0]*sz[1] >= 90000 {
+			// the same file decoded with other worker counts (the decoder splits rows over GOMAXPROCS
+			// workers above 100000 pixels): every one must reproduce the source
+			procs := []int{2, 3, 5, 7}
+			if rep.Tier != "thorough" {
+				procs = []int{procs[(i+int(rep.Seed))%4], procs[(i+int(rep.Seed)+1)%4]}
+			}
+			for _, p := range procs {
+				runtime.GOMAXPROCS(p)
+				d2, err2 := webp.Decode(bytes.NewReader(file))
+				runtime.GOMAXPROCS(ambient)
+				rep.Count(fmt.Sprintf("big-decode:GOMAXPROCS=%d", p))
+				if err2 != nil {
+					rep.Add(Finding{Kind: "property", Property: "C01", Signature: "roundtrip:decode-error", Detail: fmt.Sprintf("%s (GOMAXPROCS=%d): %v", desc, p, err2),
+						Input: map[string]any{"op": "roundtrip", "case": i, "seed": rep.Seed, "desc": desc, "procs": p, "hex": short(hx(file), 4000)}})
+					continue
+				}
+				if same2, why2 := nrgbaEqual(want, toNRGBA(d2), !o.Exact); !same2 {
+					rep.Add(Finding{Kind: "property", Property: "C01", Signature: "roundtrip:pixels:" + tname + fmt.Sprintf(":exact=%v", o.Exact),
+						Detail: fmt.Sprintf("%s (decoded with GOMAXPROCS=%d): %s", desc, p, why2), Input: map[string]any{"op": "roundtrip", "case": i, "seed": rep.Seed, "desc": desc, "procs": p, "hex": short(hx(file), 4000)}})
+				}
+			}
+			rep.Count(fmt.Sprintf("big:%dx%d", sz[0], sz[1]))
+		}
 		if ft, ferr := webp.GetFeatures(bytes.NewReader(file)); ferr == nil && anyNonOpaque(got) && !ft.HasAlpha {
 			rep.Add(Finding{Kind: "property", Property: "C16", Signature: "features:alpha-flag-missing", Detail: desc + ": decoded image has a non-opaque pixel but GetFeatures.HasAlpha is false",
 				Input: map[string]any{"op": "roundtrip", "case": i, "seed": rep.Seed, "desc": desc, "hex": short(hx(file), 4000)}})
@@ -380,7 +430,7 @@ func anyNonOpaque(img image.Image) bool {
 
 // suiteC16: header queries agree with a full decode; container views agree with one another.
 func suiteC16(rep *Report) error {
-	rep.Rule = "inputs: encoder / muxer / animation-encoder outputs (seed corpus, plus fresh encodes: one non-opaque pixel at raster index 0 / 1 / each of the last 8 positions over sizes with pixel count mod 4 = 0..3, lossless with/without metadata and lossy, and random pictures over all alpha classes), hand-assembled well-formed containers (VP8X with/without ALPH incl. zero-length, odd/empty/unknown chunks, metadata before/after, flags over/under-stating), and mutations that Decode still accepts; for each accepted still: DecodeConfig, GetFeatures, image.DecodeConfig vs the decoded image (size, colour model, format name, alpha flag for package-written files); for well-formed files: GetFeatures / DecodeConfig / Demuxer / animation.DecodeBytes agree on canvas, animation flag, frame count, loop count; non-trivial = Decode accepted or the file is animated"
+	rep.Rule = "inputs: encoder / muxer / animation-encoder outputs (seed corpus, plus fresh encodes: threshold-crossing files - widths 1023..4097 x heights 1..4 as lossy, lossy+alpha, lossless, animation, and pictures on the numeric thresholds of thresholds.go -, one non-opaque pixel at raster index 0 / 1 / each of the last 8 positions over sizes with pixel count mod 4 = 0..3, lossless with/without metadata and lossy, and random pictures over all alpha classes), hand-assembled well-formed containers (VP8X with/without ALPH incl. zero-length, odd/empty/unknown chunks, metadata before/after, flags over/under-stating), and mutations that Decode still accepts; for each accepted still: DecodeConfig, GetFeatures, image.DecodeConfig vs the decoded image (size, colour model, format name, alpha flag for package-written files); for well-formed files: GetFeatures / DecodeConfig / Demuxer / animation.DecodeBytes agree on canvas, animation flag, frame count, loop count; non-trivial = Decode accepted or the file is animated"
 	inputs, seeds := containerInputs(rep.Seed, rep.Tier)
 	_ = seeds
 	// freshly encoded files (package-written, so the alpha flag must cover every non-opaque decoded
@@ -428,6 +478,22 @@ func suiteC16(rep *Report) error {
 				sz = [2]int{1 + r.Intn(24), 1 + r.Intn(24)}
 			}
 			enc(GenImage(r, sz[0], sz[1], r.Intn(NumImgClasses), r.Intn(NumAlphaClasses)), r.Chance(2, 3), r.Chance(1, 3), r)
+		}
+		// threshold-crossing files written by the package: the wide family (widths 1023..4097 x heights 1..4 as
+		// lossy, lossy+alpha, lossless, animation) and a few pictures on the other numeric thresholds
+		every := 4
+		nThr := 8
+		if rep.Tier == "thorough" {
+			every, nThr = 1, 80
+		}
+		for _, s := range WideSeeds(rep.Seed, every) {
+			fresh = append(fresh, cInput{s.Data, "enc-fresh"})
+			rep.Count("fresh:wide")
+		}
+		for k, tc := range DrawThresholdCases(rep.Seed, 0x16, nThr, ThresholdFilter{MaxPixels: 120000, MinValue: 200}) {
+			r := NewRNG(rep.Seed, 0x1620000+uint64(k))
+			enc(GenCheapImage(r, tc.W, tc.H, r.Intn(NumCheapClasses), []int{AlphaNone, AlphaGradient, AlphaSparse, AlphaBinary}[r.Intn(4)]), r.Bool(), r.Chance(1, 3), r)
+			CountThreshold(rep, tc)
 		}
 		inputs = append(fresh, inputs...)
 	}
@@ -715,7 +781,7 @@ func wellFormedLayouts(r *RNG, seeds []Seed, n int) []cInput {
 
 // suiteC17: every proper prefix of every valid still either fails or gives the full file's result.
 func suiteC17(rep *Report) error {
-	rep.Rule = "valid still files (lossy with 1/2/4/8 partitions, lossless, lossy+alpha raw/compressed, extended with metadata before and after the image, odd payloads, testdata); for EVERY prefix length 0..len-1: Decode, DecodeConfig and GetFeatures - Decode and DecodeConfig both through a bytes.Reader and through a reader that offers only Read (no Len()) - must fail or equal the full-file result (exhaustive per file); a panic of any entry point is a finding (C05 and C17), not the end of the suite; the same prefixes go through the Lean container model (features/config ops) for correspondence; non-trivial = prefix length > 12"
+	rep.Rule = "valid still files (wide stills of widths 1023..4097 x heights 1..4 with small payloads, lossy with 1/2/4/8 partitions, lossless, lossy+alpha raw/compressed, extended with metadata before and after the image, odd payloads, testdata); for EVERY prefix length 0..len-1: Decode, DecodeConfig and GetFeatures - Decode and DecodeConfig both through a bytes.Reader and through a reader that offers only Read (no Len()) - must fail or equal the full-file result (exhaustive per file); a panic of any entry point is a finding (C05 and C17), not the end of the suite; the same prefixes go through the Lean container model (features/config ops) for correspondence; non-trivial = prefix length > 12"
 	r := NewRNG(rep.Seed, 17)
 	nfiles := 40
 	maxLen := 3500
@@ -727,6 +793,20 @@ func suiteC17(rep *Report) error {
 	for _, s := range BuildSeeds(rep.Seed, rep.Tier == "thorough") {
 		if s.Still && !isAnimatedFile(s.Data) && len(s.Data) <= maxLen {
 			files = append(files, s)
+		}
+	}
+	// threshold-crossing stills with small payloads (wide rows: widths 1023..4097 x heights 1..4)
+	{
+		nWide := 5
+		if rep.Tier == "thorough" {
+			nWide = 60
+		}
+		for _, s := range WideSeeds(rep.Seed, 3) {
+			if nWide > 0 && s.Still && len(s.Data) <= 1500 {
+				files = append(files, s)
+				rep.Count("file:wide")
+				nWide--
+			}
 		}
 	}
 	for k := 0; len(files) < nfiles && k < nfiles*3; k++ {
